@@ -305,19 +305,20 @@ func (d *hashDriver) parseHashJson(b []byte) any {
 }
 
 // battery: every observation after a mutation
-func (d *hashDriver) battery(nk int, evs []any) []any {
+func (d *hashDriver) battery(nk int, evs []any, salt int) []any {
 	ks := make([]int, nk)
 	for k := range ks {
 		ks[k] = k
 	}
-	return d.batteryOf(ks, evs)
+	return d.batteryOf(ks, evs, salt)
 }
 
-// batteryOf: every view of the hash, lookups for the keys ks; the iteration forms under every name
-func (d *hashDriver) batteryOf(ks []int, evs []any) []any {
-	evs = append(evs, d.run(hop{op: "keys"}), d.run(hop{op: "len"}), d.run(hop{op: "range"}),
-		d.run(hop{op: "range", hv: "n"}), d.run(hop{op: "range", hv: "i"}),
-		d.run(hop{op: "rangego", hv: "n"}), d.run(hop{op: "rangego1", hv: "i"}),
+// batteryOf: every view of the hash, lookups for the keys ks; the three iteration forms, each over the
+// hash under another of its names (which form gets which name rotates with salt = case index + step)
+func (d *hashDriver) batteryOf(ks []int, evs []any, salt int) []any {
+	nm := func(j int) string { return hashNames[(salt+j)%len(hashNames)] }
+	evs = append(evs, d.run(hop{op: "keys"}), d.run(hop{op: "len"}), d.run(hop{op: "range", hv: nm(0)}),
+		d.run(hop{op: "rangego", hv: nm(1)}), d.run(hop{op: "rangego1", hv: nm(2)}),
 		d.run(hop{op: "str"}), d.run(hop{op: "json"}))
 	for i := 0; i <= 3; i++ {
 		evs = append(evs, d.run(hop{op: "hpair", i: i}))
@@ -366,9 +367,9 @@ func init() {
 				if c.mine(idx) {
 					d.fresh()
 					evs := []any{}
-					for _, m := range prefix {
+					for j, m := range prefix {
 						evs = append(evs, d.run(m))
-						evs = d.battery(nk, evs)
+						evs = d.battery(nk, evs, idx+j)
 					}
 					w.write(hashCase{ID: fmt.Sprintf("x%d", idx), Evs: evs})
 				}
@@ -401,7 +402,7 @@ func init() {
 					for _, m := range prefix {
 						evs = append(evs, d.run(m))
 					}
-					evs = d.battery(nk, evs)
+					evs = d.battery(nk, evs, idx)
 					w.write(hashCase{ID: fmt.Sprintf("y%d", idx), Evs: evs})
 				}
 				idx++
@@ -433,7 +434,7 @@ func init() {
 					for j, m := range prefix {
 						evs = append(evs, d.run(m))
 						if len(prefix) <= 2 || j == len(prefix)-1 { // longer ones: their prefixes are cases of their own
-							evs = d.batteryOf(edge, evs)
+							evs = d.batteryOf(edge, evs, idx+j)
 						}
 					}
 					w.write(hashCase{ID: fmt.Sprintf("e%d", idx), Evs: evs})
@@ -470,7 +471,7 @@ func init() {
 				o := hop{op: pick(r, ops), k: r.intn(len(d.keys)), v: r.intn(len(hashVals)), i: r.intn(6) - 1, hv: pick(r, hashNames)}
 				evs = append(evs, d.run(o))
 			}
-			evs = d.battery(len(d.keys), evs)
+			evs = d.battery(len(d.keys), evs, idx)
 			w.write(hashCase{ID: fmt.Sprintf("r%d-%d", c.seed, i), Evs: evs})
 			idx++
 		}
